@@ -2097,6 +2097,7 @@ func (a *Association) handleInit(pkt *packet, initChunk *chunkInit) ([]*packet, 
 	a.peerInterleaving = false
 	a.peerForwardTSN = false
 	a.peerIForwardTSN = false
+	a.sendZeroChecksum = false
 
 	for _, param := range initChunk.params {
 		switch val := param.(type) { // nolint:gocritic
